@@ -46,6 +46,7 @@ func checkC03(c C03Case) (o Outcome) {
 	f := c.Flags
 	v := f.Valuation
 	o.Labels = []string{"iv:" + ref.Interval(f.Interval).String(), fmt.Sprintf("close:%v", !f.NoClose), fmt.Sprintf("detail:%v", f.ShowCom != ""),
+		fmt.Sprintf("regrouped:%v", len(f.Mappings) > 0 || len(f.Remap) > 0), fmt.Sprintf("filtered:%v", len(f.Accounts) > 0 || len(f.Commodities) > 0),
 		fmt.Sprintf("window:%v", f.From != nil || f.To != nil), fmt.Sprintf("last:%v", f.Last != 0)}
 	ts, _ := ref.ExpandAll(c.Directives)
 	if len(ts) == 0 {
@@ -158,10 +159,15 @@ func checkC03(c C03Case) (o Outcome) {
 		}
 		return res
 	}
+	mappedRows := len(f.Mappings) > 0 || len(f.Remap) > 0
 	tolFor := func(acc string) *big.Rat {
 		k := nEntries[acc] + 1
 		if acc == "Equity:Equity" && !f.NoClose {
 			k += nIE
+		}
+		if mappedRows {
+			// several accounts may be collapsed onto one row: bound by all entries
+			k = nAll + 1
 		}
 		return new(big.Rat).Mul(c03Unit, big.NewRat(int64(k), 1))
 	}
@@ -322,7 +328,11 @@ func drawC03(t *rapid.T) C03Case {
 		j.Directives = gen.Shuffle(t, j.Directives)
 	}
 	c := C03Case{Directives: j.Directives, Text: ref.RenderAll(j.Directives)}
-	f := gen.DrawBalFlags(t, j, gen.FlagOpts{Exact: true})
+	f := gen.DrawBalFlags(t, j, gen.FlagOpts{Exact: true, Mappings: true, Hide: true, Remap: true, Filters: true})
+	if rapid.IntRange(0, 2).Draw(t, "plainFlags") != 0 {
+		// most cases stay without regrouping, so that the mirror-account clause is checked row by row
+		f.Mappings, f.Remap, f.Accounts, f.Commodities = nil, nil, nil, nil
+	}
 	f.CSV, f.Digits, f.Diff = false, 8, false
 	f.Valuation = rapid.SampledFrom(j.Commodities).Draw(t, "valuation")
 	if rapid.Bool().Draw(t, "detail") {
